@@ -579,6 +579,13 @@ impl StorageEngine {
             return Ok(0);
         }
 
+        // Refuse before anything is persisted: a delete logged for a graph that
+        // does not exist would create its shard, and the graph would then be
+        // "rediscovered" from the shard name on the next startup.
+        if !self.knowledge_graphs.contains_key(kg) {
+            return Err(StorageError::KnowledgeGraphNotFound(kg.to_string()));
+        }
+
         // Hold dropping_kgs read guard across the persist operation (same as insert)
         let dropping_guard = self.dropping_kgs.read();
         if dropping_guard.contains(kg) {
